@@ -1,10 +1,19 @@
 /-
   C04 — compiling ABNF text yields the parser the text denotes, whatever its layout.
   Property theorems about the decoders of the grammar visitor (model: Abnf/Compile.lean), for ALL digit
-  strings / layouts.  NOT proved (validated differentially by ./check C04, see DESIGN.md): that the parse
-  tree the reader chooses for a rendered text abstracts to the AST it was rendered from.
+  strings / layouts, and about the model of the whole compiler (Abnf/CompileTree.lean: model engine on the reader's
+  table REGENERATED from /repo, then the model of the visitors): `create_rejects_iff_not_derivable` - a rule text is
+  rejected with ParseError exactly when (with the CRLF `Rule.create` appends) it is not derivable from `rule` in the
+  reader's table, and otherwise the visitors run on a derivation tree of the whole text; never GrammarError, never
+  non-termination.  (With C05 - Abnf/SelfDescription.lean - "derivable in the reader's table" is "is ABNF per RFC 5234
+  section 4 + RFC 7405".)
+  NOT proved (validated differentially by ./check C04, see DESIGN.md): that the parse tree the reader chooses for a
+  rendered text abstracts to the AST it was rendered from (unambiguity of ABNF modulo layout).
 -/
 import Abnf.Compile
+import Abnf.CompileTree
+import Abnf.AcceptOn
+import Abnf.Obligations.Meta
 namespace Abnf.C04
 open Abnf.Compile
 
@@ -123,6 +132,54 @@ theorem lf_vs_crlf (t : List Nat) (hcr : ∀ c ∈ t, c ≠ 0x0D) :
       · subst h; simp [expandLf, notCr, List.filter_cons]
       · simp [expandLf, notCr, List.filter_cons, h, hc]
   simp only [normaliseLineEnds, key t hcr]
+
+/-! ### the whole compiler -/
+
+/-- the text `Rule.create` hands to the reader -/
+def srcOf (text : Src) : Src :=
+  if text.drop (text.length - 2) == [0x0D, 0x0A] && 2 ≤ text.length then text else text ++ [0x0D, 0x0A]
+
+theorem rule_index : AbnfGen.metaGNames[1]? = some ("rule", 1) ∧ definedB AbnfGen.metaG 1 = true := by decide +kernel
+
+/-- **Accepted iff derivable.**  For every rule text, with the explicit fuel: `Rule.create` (model) answers ParseError iff
+the text is not derivable from `rule` in the reader's table; if it is derivable, the visitors run on a parse tree that is
+a derivation of the WHOLE text (so the outcome is a compiled rule or the visitors' exception), and the outcome is never
+"out of fuel" or GrammarError. -/
+theorem create_rejects_iff_not_derivable (text : Src) (f : Nat)
+    (hf : fuelFor AbnfGen.metaGK AbnfGen.metaGD (srcOf text).length AbnfGen.metaGK 0 ≤ f) :
+    (CT.create AbnfGen.metaG 1 f text = .parseError ↔ ¬ M AbnfGen.metaG (srcOf text) (.ref 1) 0 (srcOf text).length) ∧
+    (M AbnfGen.metaG (srcOf text) (.ref 1) 0 (srcOf text).length →
+      ∃ t, parseAll AbnfGen.metaG f (srcOf text) 1 = .ok t (srcOf text).length ∧
+        CT.create AbnfGen.metaG 1 f text = CT.finish t) := by
+  have A := accepts_iff_derivable_on (wfCheck_sound _ _ _ _ _ Obl.Meta.meta_wf) (closedGB_sound _ Obl.Meta.meta_closed) _
+    (gplainOn_of_gplain (plainGB_sound _ Obl.Meta.meta_plain)) id (fun _ _ => Iff.rfl) (srcOf text) 1 trivial
+    (definedB_sound rule_index.2) f hf
+  -- `create` is `parse_all` followed by the visitors
+  have hcreate : CT.create AbnfGen.metaG 1 f text =
+      (match parseAll AbnfGen.metaG f (srcOf text) 1 with
+        | .oof => .oof | .gerr => .gerr | .fail => .parseError
+        | .ok t _ => CT.finish t) := by
+    simp only [CT.create, CT.createWith, parseAll, parseAllWith, parse, srcOf]
+    cases hp : parseWith id AbnfGen.metaG f
+        (if (text.drop (text.length - 2) == [0x0D, 0x0A] && decide (2 ≤ text.length)) = true then text else text ++ [0x0D, 0x0A]) 1 0 with
+    | oof => simp [wholeOf]
+    | gerr => simp [wholeOf]
+    | fail => simp [wholeOf]
+    | ok t stop =>
+      simp only [wholeOf]
+      split <;> split <;> simp_all
+  by_cases hm : M AbnfGen.metaG (srcOf text) (.ref 1) 0 (srcOf text).length
+  · obtain ⟨t, ht⟩ := A.1.mpr hm
+    have ht' : parseAll AbnfGen.metaG f (srcOf text) 1 = .ok t (srcOf text).length := ht
+    refine ⟨⟨?_, fun h => absurd hm h⟩, fun _ => ⟨t, ht', ?_⟩⟩
+    · intro h
+      rw [hcreate, ht'] at h
+      simp only [CT.finish] at h
+      split at h <;> cases h
+    · rw [hcreate, ht']
+  · have hfail : parseAll AbnfGen.metaG f (srcOf text) 1 = .fail := A.2 (fun h => hm (A.1.mp h))
+    refine ⟨⟨fun _ => hm, fun _ => ?_⟩, fun h => absurd h hm⟩
+    rw [hcreate, hfail]
 
 example : decodeNum 16 [0x31, 0x30, 0x46, 0x66] = some 0x10FF := by decide
 example : decodeRepeat ⟨[0x30, 0x30, 0x37], true, []⟩ = some (7, none) := by decide
